@@ -8,7 +8,8 @@
   `CountingPageAllocator`, `PageHeap` (allocate, deallocate, destructors) or `ObjectPool` (pop, try_pop, push in
   strict and auto-create mode), or a call / return event allowed by the client contract (`callOp`: a caller
   gives back only tokens it holds; the upstream hands out only tokens that are not live).  `Reach c s` = `s` is
-  reachable from the initial state by any interleaving.
+  reachable, by any interleaving, from the empty queue at the start of ANY round `r0` (`State.initAt c r0`;
+  `r0 = 0` is a fresh allocator, large `r0` are the states just below the wrap of the 16-bit slot version).
 
   ASSUMED bounded-queue specification (C01/C02's theorems, not re-proved here; stated in the header of
   Model.lean): it enters the model as guards of `acquire` / `takeVal` / `publish` (C01 `bq_inv`,
@@ -295,7 +296,7 @@ example : ∃ s, Reach demoCfg s ∧ s.held = [1] ∧ cacheToks s = [2] ∧ (s.t
   cases hs : run demoCfg (State.init demoCfg) demoSched with
   | none => exact absurd hs (by decide)
   | some s =>
-    have hr : Reach demoCfg s := run_reach demoSched _ _ (Reachable.base rfl) hs
+    have hr : Reach demoCfg s := run_reach demoSched _ _ (Reachable.base ⟨0, rfl⟩) hs
     have hrest : (run demoCfg (State.init demoCfg) demoSched).map
         (fun s => decide (s.held = [1] ∧ cacheToks s = [2] ∧ (s.th 1).pc = .cRel ∧ (s.th 1).carry = [3] ∧
           s.obtained = 3 ∧ s.returned = 0)) = some true := by decide
@@ -318,7 +319,7 @@ example : ∃ s s0 s', Reach demoCfg s ∧ Quiescent demoCfg s ∧ QShape demoCf
   cases hs : run demoCfg (State.init demoCfg) demoFill with
   | none => exact absurd hs (by decide)
   | some s =>
-    have hr : Reach demoCfg s := run_reach demoFill _ _ (Reachable.base rfl) hs
+    have hr : Reach demoCfg s := run_reach demoFill _ _ (Reachable.base ⟨0, rfl⟩) hs
     have hfacts : (run demoCfg (State.init demoCfg) demoFill).map
         (fun s => quiescentB demoCfg s && qshapeB demoCfg s && decide (cacheToks s = [1, 2])) = some true := by decide
     rw [hs] at hfacts
